@@ -11,6 +11,8 @@ Open Scope Z_scope.
 Inductive vobs :=
 | XSubmit (ante_passed : bool) (code : Z)
 | XVesting (r : vtx)
+| XIca (code : Z)                          (* a submission carried by an ICA host packet: 0 = success acknowledgement, else the ABCI
+                                              code of the error acknowledgement, 111222 = OnRecvPacket panicked *)
 | XNone.                                   (* not a transaction (mint) *)
 
 Definition sres_obs (r : sres) : bool * Z :=
@@ -31,6 +33,7 @@ Definition vtx_eqb (a b : vtx) : bool :=
 Definition res_matches (r : vres) (o : vobs) : bool :=
   match r, o with
   | RSubmit s, XSubmit a c => let (a', c') := sres_obs s in Bool.eqb a a' && (c =? c')
+  | RSubmit s, XIca c => c =? snd (sres_obs s)
   | RVesting v, XVesting v' => vtx_eqb v v'
   | ROtherOp, XNone => true
   | RIca, XNone => true
@@ -86,12 +89,20 @@ Definition state_of (c : vcase) : vstate :=
      vested := fun a => memN a (k_vested c);
      acct := fun a => memN a (k_acct c) |}.
 
+(* ICA host packets of a case are delivered between the previous commit and this block's CheckTx calls: CheckTx sees their effect *)
+Fixpoint after_ica (ver : N -> N -> bool) (st : vstate) (l : list vop) : vstate :=
+  match l with
+  | OIcaPacket p ok m :: r => after_ica ver (fst (step ver st (OIcaPacket p ok m))) r
+  | OIcaSubmit sub acc ok g :: r => after_ica ver (fst (step ver st (OIcaSubmit sub acc ok g))) r
+  | _ => st
+  end.
+
 Definition vauth_ok (c : vcase) : bool :=
   let ver := ver_of (k_ver c) in
   let st := state_of c in
   let (st', rs) := run_res ver st (k_ops c) in
   vall2 res_matches rs (k_obs c) &&
-  vall2 Bool.eqb (map (check_ok ver st) (k_ops c)) (k_check c) &&
+  vall2 Bool.eqb (map (check_ok ver (after_ica ver st (k_ops c))) (k_ops c)) (k_check c) &&
   vall2 optN_eqb (map (fun a => option_map s_str (proofs st' a)) (k_univ c)) (k_proofs' c) &&
   vall2 Z.eqb (map (fun e => bal st' (fst e)) (k_bal c)) (k_bal' c) &&
   (supply st' =? k_supply' c) &&
